@@ -44,6 +44,14 @@ func makeWorkspace(c *core.Ctx, name string, nproj int, salt int64) *workspace {
 		o := gen.Opts{Years: 1, MinLayers: 4, MaxLayers: 10, Crops: []string{"SM", "SOY", "OA"}, Schedules: i%2 == 0, Measure: i%2 == 1, ETMethods: []int{2, 3},
 			GWFrom: []string{[]string{"soilfile", "polygonfile", "gwTimeSeries"}[i%3]}, ShallowGW: i%2 == 0, HeavyRain: i%2 == 1}
 		p := gen.Random(r, fmt.Sprintf("bp%d", i), o)
+		for try := 0; len(p.Rotation) < 2 && try < 20; try++ { // at least one crop is grown
+			p = gen.Random(r, fmt.Sprintf("bp%d", i), o)
+		}
+		// every project grows its crops under its own user-defined crop codes (codes outside the built-in table are
+		// registered per run): what one run registers must not reach another run of the session
+		for k, base := range []string{"SM", "SOY", "OA"} {
+			p.UseCropCode(base, fmt.Sprintf("%c%c", 'X'+byte(k), 'A'+byte(i)))
+		}
 		p.Write(root, paramSrc)
 		// a second weather file with a hole in the middle (negative test: gap in weather data)
 		g := *p
@@ -64,7 +72,7 @@ func makeWorkspace(c *core.Ctx, name string, nproj int, salt int64) *workspace {
 	return ws
 }
 
-var failClasses = []string{"soil-id", "field-id", "texture", "fractions", "weather-gap", "tillage-in-crop", "start-year"}
+var failClasses = []string{"soil-id", "field-id", "texture", "texture-deep", "fractions", "weather-gap", "tillage-in-crop", "start-year"}
 
 // line builds the batch line of project p with its own result folder; fail != "" turns it into a failing line.
 func (ws *workspace) line(pi int, k int, fail string) batchLine {
@@ -89,6 +97,8 @@ func (ws *workspace) line(pi int, k int, fail string) batchLine {
 		set("plotNr", "99999")
 	case "texture":
 		set("soilId", "901")
+	case "texture-deep":
+		set("soilId", "903") // valid texture in the first horizon, unknown texture in the second
 	case "fractions":
 		set("soilId", "902")
 		set("PTF", "1")
@@ -207,7 +217,7 @@ func runBatch(c *core.Ctx, bin string, ws *workspace, name string, lines []batch
 		}
 		h := hashDir(filepath.Join(dir, l.ResultAt))
 		ref, ok := solo[l.SoloKey]
-		w.Write(map[string]interface{}{"ev": "cmp", "line": i, "equal": ok && h == ref && h != "missing", "hash": h[:8]})
+		w.Write(map[string]interface{}{"ev": "cmp", "line": i, "equal": ok && h == ref && h != "missing", "hash": h[:minInt(8, len(h))]})
 	}
 	w.Write(map[string]interface{}{"ev": "race", "count": o.Races})
 	summary := []string{}
@@ -323,6 +333,14 @@ func checkC03(c *core.Ctx) {
 		K := []int{1, 2, 3, 8, 16}[s%5]
 		outs = append(outs, runBatch(c, bin, ws, fmt.Sprintf("sess%d", s), lines, K, solo, ""))
 	}
+	// all distinct projects side by side (different user-defined crop codes, soils, weather), as many slots as lines
+	for s := 0; s < c.Pick(3, 10); s++ {
+		var lines []batchLine
+		for k := 0; k < 2*good; k++ {
+			lines = append(lines, ws.line((k+s)%good, k, ""))
+		}
+		outs = append(outs, runBatch(c, bin, ws, fmt.Sprintf("side%d", s), lines, 2*good, solo, ""))
+	}
 	validateBatches(c, outs, c03Invariants, "C03")
 	// race detector: the same kind of sessions with the -race build
 	rbin, err := c.BuildRepoBin("hermes2go", true, true)
@@ -357,7 +375,7 @@ func minInt(a, b int) int {
 
 func checkC11(c *core.Ctx) {
 	c.Assume = append(c.Assume,
-		"only the listed reported-error classes must fail per line (unknown soil id / field id, texture not in the tables, inconsistent texture fractions, gap in weather data, tillage between sowing and harvest, start year not matching the first harvest)",
+		"only the listed reported-error classes must fail per line (unknown soil id / field id, texture not in the tables in the first or in a deeper horizon, inconsistent texture fractions, gap in weather data, tillage between sowing and harvest, start year not matching the first harvest)",
 		"termination: every session has a deadline of 10 minutes (a session of this size takes seconds)")
 	designBatch(c)
 	bin, err := c.BuildRepoBin("hermes2go", true, false)
